@@ -431,7 +431,7 @@ type Op struct {
 	Json     bool `json:"j"`
 }
 
-var opKinds = []string{"Prototype+build+Unwrap", "Wrap+read", "Marshal+Unmarshal"}
+var opKinds = []string{"Prototype+build+Unwrap", "Wrap+read", "Marshal+Unmarshal", "Prototype(Go type inferred from schema)+build+read", "build-with-an-integer-outside-the-Go-field's-range"}
 
 func (o Op) String() string {
 	m := "explicit"
@@ -691,6 +691,63 @@ func Exec(o Op) (out string) {
 		}
 		if bindnode.Unwrap(n) != val {
 			out += " FID:unwrap-returns-pointer=false"
+		}
+		return out
+	case 4:
+		// An integer that the Go field cannot hold (its width or signedness) is assembled into Widths:
+		// the builder may refuse; it must not store some other number.
+		if vt.name != "Widths" {
+			return "not-applicable"
+		}
+		oor := []struct {
+			field string
+			v     *model.V
+		}{
+			{"I8", model.IntV(128)}, {"I8", model.IntV(-129)}, {"I16", model.IntV(32768)}, {"I16", model.IntV(-32769)}, {"I32", model.IntV(1 << 31)},
+			{"U8", model.IntV(256)}, {"U8", model.IntV(-1)}, {"U16", model.IntV(65536)}, {"U32", model.IntV(1 << 32)}, {"U64", model.IntV(-1)}, {"U", model.IntV(-5)},
+			{"I64", model.UintV(1 << 63)}, {"I", model.UintV(1<<63 + 1)}, {"U8", model.UintV(1 << 63)}, {"I8", model.UintV(math.MaxUint64)}, {"U32", model.UintV(math.MaxUint64)},
+		}
+		c := oor[o.Val%len(oor)]
+		content := expectV(reflect.ValueOf(val).Elem(), shapes["Widths"], false)
+		for i, k := range content.Keys {
+			if k == c.field {
+				content.Vals[i] = c.v
+			}
+		}
+		nb := bindnode.Prototype(vt.ptr(), st).NewBuilder()
+		if err := model.Assemble(nb, content, linkOf, nil); err != nil {
+			return "refused " + c.field + "=" + c.v.String()
+		}
+		stored := reflect.ValueOf(bindnode.Unwrap(nb.Build())).Elem().FieldByName(c.field)
+		return fmt.Sprintf("accepted %s=%s stored=%v FID:integer-outside-the-field's-range-stored-as-another-number=false", c.field, c.v.String(), stored.Interface())
+	case 3:
+		// the Go type is inferred from the schema by reflection (nil pointer type): build from the
+		// hand-written expected content at both levels, read both views back
+		proto := bindnode.Prototype(nil, st)
+		sh := shapes[vt.name]
+		if sh == nil {
+			return "harness: no shape for " + vt.name
+		}
+		rv := reflect.ValueOf(val).Elem()
+		for _, repr := range []bool{false, true} {
+			b := proto.NewBuilder()
+			what := "type"
+			if repr {
+				b, what = proto.Representation().NewBuilder(), "representation"
+			}
+			if err := model.Assemble(b, expectV(rv, sh, repr), linkOf, nil); err != nil {
+				return out + " ERR:" + what + "-level build into the inferred Go type: " + err.Error()
+			}
+			built := b.Build().(schema.TypedNode)
+			out += " " + what + "-built: type=" + avh(built) + " repr=" + avh(built.Representation())
+			if tv, err := readView(built); err != nil || !model.Equal(tv, expectV(rv, sh, false)) {
+				out += " FID:inferred-go-type-" + what + "-build-exposes-value=false"
+			}
+			if !strings.Contains(out, "unreadable:") {
+				if rpv, err := readView(built.Representation()); err != nil || !model.Equal(rpv, expectV(rv, sh, true)) {
+					out += " FID:inferred-go-type-" + what + "-build-exposes-representation=false"
+				}
+			}
 		}
 		return out
 	case 2:
